@@ -92,7 +92,7 @@ def build_sessions(gens, exact=True):
     return sessions
 
 
-BIG_PROPS = ("C01", "C03", "C04", "C05", "C06", "C10", "C13")
+BIG_PROPS = ("C01", "C02", "C03", "C04", "C05", "C06", "C10", "C13")
 BIG_QUICK = [(3, 3, 11), (1, 12, 12), (12, 1, 13), (5, 5, 14), (2, 2, 15)]
 BIG_THOROUGH = BIG_QUICK + [(8, 8, 21), (10, 5, 22), (20, 10, 23), (3, 200, 24), (40, 10, 25), (6, 6, 26), (4, 7, 27)]
 
